@@ -2,8 +2,12 @@
 
   1. TLC model-checks DataLogger.tla (recorder + writer thread at synchronisation-operation granularity, explicit clock,
      double buffer, subdivision, pause/resume/stop/close): Conservation, FilesComplete, TerminalComplete over all
-     interleavings in the bound, for BOTH writer statement orders (the order the code has is observed by a probe run on the
-     real DataCollection); StopTerminates / WriterLeaves under weak fairness on a smaller bound.
+     interleavings in the bound, for the THREE handshakes of the model (clear_then_set = the original code, set_then_clear =
+     the first repair, handoff = request cleared at pickup / write_finished set last and tested by the recorder; the one the
+     code has is observed by a probe run on the real DataCollection); StopTerminates / WriterLeaves under weak fairness on a
+     smaller bound.  If TLC violates the model of the handshake the code HAS, its counterexamples are executed on the code
+     (and, should no execution show a failing clause, the model-level verdict itself is reported: an unsafe handshake never
+     passes as "conformant to an unsafe model").
   2. spec -> code: TLC exports the complete state graph of a small bound; a path cover of ALL its transitions (every model
      transition in its context, including every path into a state that violates Conservation/FilesComplete) plus
      TLC -simulate behaviours of a larger bound are replayed on the REAL DataCollection/DataSet under the deterministic
@@ -11,12 +15,19 @@
      back with the package's readers and compared with the arrival script: the C17 clauses.
   3. code -> spec: the recorded synchronisation operations of every run are validated by TLC (DataLogger_Trace); TLC also
      evaluates the clauses on the read-back files.  A trace the model cannot follow without a failing clause = drift.
+  4. RESTART: a stopped collection is started again (MaxRec = 2 in the model: stop -> start -> record -> stop, buffers,
+     events, writer and _elapsed_time as the code leaves them).  Conservation / FilesComplete are stated per recording and
+     model checked on a bound of their own; the complete state graph of a small restart bound is covered path by path on
+     the real DataCollection, restart scripts are enumerated / fuzzed on the code, the simulated behaviours contain
+     restarts.  The files of each recording are read back separately (metadata-dependent names, as a user of the package
+     has them) and each recording is judged against the arrivals of that recording.
 """
 from __future__ import annotations
 
 import json
 import os
 import random
+import re
 import shutil
 import tempfile
 from collections import defaultdict, deque
@@ -32,6 +43,8 @@ CONSTANTS
   MaxNone = {none}
   MaxTicks = {ticks}
   MaxPause = {pause}
+  MaxRec = {rec}
+  EaccReset = {eres}
   Dts = {dts}
   WriterOrder = "{order}"
   I1 = {i1}
@@ -43,14 +56,17 @@ CHECK_DEADLOCK FALSE
 """
 SAFETY = "\n".join("INVARIANT " + i for i in ("Conservation", "FilesComplete", "TerminalComplete"))
 LIVENESS = "PROPERTY StopTerminates\nPROPERTY WriterLeaves"
-ORDERS = ("clear_then_set", "set_then_clear")
+ORDERS = ("clear_then_set", "set_then_clear", "handoff")     # WriterOrder of DataLogger.tla; the one the code has is observed
 FORMAT_PAIRS = [("raw", "json"), ("quicklogger", "msg_header"), ("json", "quicklogger"), ("msg_header", "raw"),
                 ("quicklogger", "quicklogger"), ("raw", "raw")]
 LOSS_CLASS = {"R.s_clearfin": "stop-restages-over-unwritten-buffer", "R.u_isset": "update-restages-over-unwritten-buffer"}
+SAFE_ORDER = "handoff"       # the handshake for which TLC finds no violation (one and two recordings, safety and liveness)
+NAMINGS = ("file", "dir")
+EACC_RESET = ["FALSE"]   # does start() reset _elapsed_time? observed on the code by a probe run (set in run / replay), a constant of every cfg
 
 
 def _cfg(d: str, name: str, **kw) -> str:
-    base = dict(spec="Spec", msgs=2, none=0, ticks=2, pause=0, dts="{16}", order=ORDERS[0], i1=30, i2=0, gen="FALSE", edge="FALSE", checks="")
+    base = dict(spec="Spec", msgs=2, none=0, ticks=2, pause=0, rec=1, eres=EACC_RESET[0], dts="{16}", order=ORDERS[0], i1=30, i2=0, gen="FALSE", edge="FALSE", checks="")
     base.update(kw)
     p = os.path.join(d, name)
     with open(p, "w") as f:
@@ -149,7 +165,7 @@ def _run(args) -> Dict[str, Any]:
     from .. import logger_drv as L
 
     res = L.run_behaviour(beh, fmts=tuple(variant["fmts"]), intervals=tuple(variant["intervals"]), typemap=variant["typemap"],
-                          stutters=variant.get("stutters"))
+                          stutters=variant.get("stutters"), naming=variant.get("naming", "file"))
     res["tid"] = tid
     res["judge"] = L.judge(res)
     return res
@@ -163,7 +179,7 @@ def _explore(args) -> Dict[str, Any]:
     out, stack = [], list(stack)
     while stack and len(out) < max_runs:
         res, alts = L.run_schedule(script, stack.pop(), fmts=tuple(variant["fmts"]), intervals=tuple(variant["intervals"]),
-                                   typemap=variant["typemap"])
+                                   typemap=variant["typemap"], naming=variant.get("naming", "file"))
         stack += alts
         res["judge"] = L.judge(res)
         out.append(res)
@@ -175,7 +191,7 @@ def _fuzz(args) -> Dict[str, Any]:
     from .. import logger_drv as L
 
     res, _ = L.run_schedule(script, None, seed=seed, p_stutter=0.1, fmts=tuple(variant["fmts"]), intervals=tuple(variant["intervals"]),
-                            typemap=variant["typemap"])
+                            typemap=variant["typemap"], naming=variant.get("naming", "file"))
     res["judge"] = L.judge(res)
     return res
 
@@ -194,9 +210,57 @@ def _scripts(behs: List[List[dict]]) -> List[List[dict]]:
     return out
 
 
-def _probe(_=None) -> str:
+RESTART_SCRIPTS = (24, 200)     # restart scripts enumerated on the code (quick, thorough)
+RESTART_CAP = (400, 4000)       # runs per open subtree of such a script
+
+
+def _second_flushes(sc: List[dict]) -> bool:
+    """does the script give the second recording a flush deadline (a tick after the second start) followed by an update?"""
+    starts = [i for i, x in enumerate(sc) if x["a"] == "Start"]
+    if len(starts) < 2:
+        return False
+    tail = sc[starts[1]:]
+    ticks = [i for i, x in enumerate(tail) if x["a"] == "Tick"]
+    return bool(ticks) and any(x["a"] == "Update" for x in tail[ticks[0]:])
+
+
+def _between(ev: List[dict]) -> bool:
+    """an update() between two recordings (after a stop, before the next start)"""
+    stopped = False
+    for e in ev:
+        if e["a"] == "Stop":
+            stopped = True
+        elif e["a"] == "Start":
+            stopped = False
+        elif e["a"] == "Update" and stopped and e["rec"] >= 1 and any(x["a"] == "Start" and x["rec"] > e["rec"] for x in ev):
+            return True
+    return False
+
+
+_ACT = {"RStart": "Start", "RTick": "Tick", "RUpdate": "Update", "RPause": "Pause", "RResume": "Resume", "RStop": "Stop", "RClose": "Close",
+        "ROp": "Op", "WOp": "Op"}
+TLC_CLAUSE = {"Conservation": "Lost", "FilesComplete": "Lost", "TerminalComplete": "Lost", "StopTerminates": "StopHangs", "WriterLeaves": "StopHangs"}
+
+
+def _cex(out: str) -> List[dict]:
+    """the behaviour (step labels) of the counterexample TLC printed: 'State 7: <RUpdate("A") line ..>' -> {"th": "R", "a": "Update", "t": "A"}"""
+    beh = []
+    for m in re.finditer(r"^State \d+: <(\w+)(?:\(([^)]*)\))? line ", out, re.M):
+        act, arg = m.group(1), (m.group(2) or "").strip()
+        if act not in _ACT:
+            raise tlc.TlcError(f"counterexample: unknown action {act}")
+        st = {"th": "W" if act == "WOp" else "R", "a": _ACT[act], "t": "", "dt": 0}
+        if act == "RTick":
+            st["dt"] = int(arg)
+        elif act == "RUpdate":
+            st["t"] = arg.strip('"')
+        beh.append(st)
+    return beh
+
+
+def _probe(_=None) -> Tuple[str, bool]:
     from .. import logger_drv as L
-    return L.probe_order()
+    return L.probe_order(), L.probe_elapsed_carried()
 
 
 def _pool_map(fn, work, jobs=12, chunksize=8):
@@ -217,7 +281,7 @@ def _validate(d: str, results: List[Dict[str, Any]], order: str) -> Dict[int, di
         groups[tuple(r["variant"]["intervals"])].append({"tid": r["tid"], "ev": r["ev"]})
     jobs = []
     for (i1, i2), items in groups.items():
-        cfg = _cfg(d, f"trace_{i1}_{i2}.cfg", spec="TSpec", msgs=1000, none=1000, ticks=1000, pause=1000, order=order, i1=i1, i2=i2)
+        cfg = _cfg(d, f"trace_{i1}_{i2}.cfg", spec="TSpec", msgs=1000, none=1000, ticks=1000, pause=1000, rec=1000, order=order, i1=i1, i2=i2)
         n = max(1, min(8, len(items) // 120), -(-len(items) // 8000))
         for k in range(n):
             jobs.append((cfg, items[k::n]))
@@ -241,7 +305,9 @@ def _signature(clause: str, verdict: dict, res: Dict[str, Any]) -> str:
     name = clause.split(".", 1)[1]
     la = verdict.get("lostAt", "")
     det = res["judge"]["detail"]
-    fm = dict(zip(sorted(res["files"]), res["variant"]["fmts"]))
+    fm = dict(zip(sorted({d for f in res["files"] for d in f}), res["variant"]["fmts"]))
+    tags = det.get(name, [])                       # "<ds>@<recording>" / "<ds>@<r1>+<r2>" (duplicate across recordings)
+    restart = bool(tags) and all("+" in t or int(t.split("@")[1]) > 1 for t in tags)   # only later recordings are affected
     if name.startswith("FileUnreadable"):
         f = name[name.index("(") + 1:-1]
         why = sorted({u.split(":")[2] for u in res["unread"] if u.split(":")[1] == f})
@@ -250,14 +316,17 @@ def _signature(clause: str, verdict: dict, res: Dict[str, Any]) -> str:
         w = [e for e in res["ev"] if e["th"] == "W" and e.get("exc")]
         return f"C17/StopHangs/{'writer-died:' + w[-1]['exc'] if w else 'writer-alive'}"
     if la:
-        return f"C17/{name}/{LOSS_CLASS.get(la, 'model:' + la)}"
+        base, _, sfx = la.partition("@")
+        return f"C17/{name}/{LOSS_CLASS.get(base, 'model:' + base)}{'-after-' + sfx if sfx else ''}"
     dr = sorted(st for st, c in verdict["props"] if c == "drift" and st < len(res["ev"]))
     if dr:   # the run left the model before the files went wrong: the class is the step the model could not follow
         e = res["ev"][dr[0] - 1]
         what = f"{e['op']}.{e['ev']}" if e["a"] == "Op" else e["a"]
         return f"C17/{name}/diverges-from-model@{e['th']}.{what}{'!' + e['exc'] if e['exc'] else ''}"
-    fmts = sorted({fm[d] for d in det.get(name, [])})
-    return f"C17/{name}/not-in-model:{'fmt:' + fmts[0] if len(fmts) == 1 else 'any-format'}"
+    if res["hang"]:   # stop() of the last recording never returned: its files were not finalised
+        return f"C17/{name}/stop-never-returned"
+    fmts = sorted({fm[t.split("@")[0]] for t in tags})
+    return f"C17/{name}/not-in-model:{'after-restart:' if restart else ''}{'fmt:' + fmts[0] if len(fmts) == 1 else 'any-format'}"
 
 
 def _assess(results: List[Dict[str, Any]], verdicts: Dict[int, dict]):
@@ -281,6 +350,21 @@ def _assess(results: List[Dict[str, Any]], verdicts: Dict[int, dict]):
             if sig not in best or n < best[sig][0]:
                 best[sig] = (n, {"signature": sig, "replay": rp})
             count[sig] += 1
+    # a clause that fails for data sets of different formatters does not depend on the formatter: one signature
+    groups: Dict[str, List[str]] = defaultdict(list)
+    for sig in best:
+        m = re.match(r"^(.*:)(fmt:\w+|any-format)$", sig)
+        if m:
+            groups[m.group(1)].append(sig)
+    for pre, sigs in groups.items():
+        if len(sigs) > 1:
+            tgt = pre + "any-format"
+            n, v = min((best[x] for x in sigs), key=lambda bv: bv[0])
+            total = sum(count.pop(x) for x in sigs)
+            for x in sigs:
+                del best[x]
+            v["signature"] = tgt
+            best[tgt], count[tgt] = (n, v), total
     # one violation per signature: the shortest schedule that shows it (the CLI stores one replay file per signature)
     viol = [best[sig][1] for sig in sorted(best)]
     for x in viol:
@@ -288,9 +372,11 @@ def _assess(results: List[Dict[str, Any]], verdicts: Dict[int, dict]):
     return viol, drift
 
 
-def _expected(r: Dict[str, Any]) -> Dict[str, List[int]]:
+def _expected(r: Dict[str, Any]) -> List[Dict[str, List[int]]]:
+    """per recording: the serial numbers every data set has to hold"""
     arr = [e for e in r["ev"] if e["a"] == "Update" and e["t"] != "None"]
-    return {d: [e["id"] for e in arr if e["live"] and (e["t"] == "A" or d != "d1")] for d in sorted(r["files"])}
+    return [{d: [e["id"] for e in arr if e["live"] and e["rec"] == k and (e["t"] == "A" or d != "d1")] for d in sorted(f)}
+            for k, f in enumerate(r["files"], start=1)]
 
 
 # ------------------------------------------------------------------------------------------------------------
@@ -307,8 +393,13 @@ def run(tier: str, seed: int) -> Dict[str, Any]:
         phases[name] = round(_time.time() - t0, 1)
         t0 = _time.time()
     try:
-        order = _pool_map(_probe, [None])[0]
-        model_order = order if order in ORDERS else ORDERS[0]
+        order, carried = _pool_map(_probe, [None])[0]
+        EACC_RESET[0] = "FALSE" if carried else "TRUE"
+        if carried:
+            notes.append("start() does not reset _elapsed_time: after a recording that was paused, elapsed_time of the NEXT recording starts at "
+                         "the paused value (flush / subdivision deadlines of the second recording come early); modelled as the code has it "
+                         "(EaccReset = FALSE), no C17 clause depends on it")
+        model_order = order if order in ORDERS else SAFE_ORDER      # an unknown handshake is followed with the safe model
         if order not in ORDERS:
             notes.append(f"writer handshake order observed on the code is '{order}': the model uses {model_order}; expect drift")
 
@@ -318,8 +409,12 @@ def run(tier: str, seed: int) -> Dict[str, Any]:
 
         def mcjob(cfg, workers):
             r = tlc.run_tlc("DataLogger", cfg, workers=workers, timeout=2400)
+            m = re.search(r"Error: Temporal property (\S+) was violated", r["out"])   # (a message format vf.tlc.run_tlc does not know)
+            if m and r["violation"] is None:
+                r["violation"] = m.group(1)
             if r["error"] or (not r.get("finished") and r["violation"] is None):
                 raise tlc.TlcError(f"TLC failed on {cfg}: {r['error']}\n{r['out'][-1500:]}")
+            r["cex"] = _cex(r["out"]) if r["violation"] else []
             return r
 
         bound = dict(msgs=3, none=1, ticks=2, pause=1, dts="{16}") if q else dict(msgs=4, none=1, ticks=3, pause=1, dts="{16, 40}")
@@ -330,48 +425,76 @@ def run(tier: str, seed: int) -> Dict[str, Any]:
         else:
             plans.append(dict(msgs=2, none=1, ticks=2, pause=1, dts="{16}", i1=30, i2=0))
             plans.append(dict(msgs=3, none=0, ticks=3, pause=0, dts="{16}", i1=30, i2=45))
-        sim = dict(msgs=5, none=2, ticks=4, pause=2, dts="{16, 40}", i1=30, i2=45)
-        with ThreadPoolExecutor(max_workers=8) as ex:
+        # restart (MaxRec = 2): a bound of its own for model checking, the smallest restart graph for the transition cover
+        rbound = dict(msgs=2, none=1, ticks=2, pause=1, dts="{16}", rec=2) if q else dict(msgs=3, none=1, ticks=3, pause=1, dts="{16}", rec=2)
+        rlb = dict(msgs=1, none=1, ticks=2, pause=0, dts="{16}", rec=2) if q else dict(msgs=2, none=1, ticks=2, pause=1, dts="{16}", rec=2)
+        rplan = len(plans)
+        plans.append(dict(msgs=2, none=0, ticks=2, pause=0, dts="{16}", i1=30, i2=0, rec=2))
+        if not q:
+            plans.append(dict(msgs=2, none=0, ticks=2, pause=1, dts="{16}", i1=30, i2=0, rec=2))
+        sim = dict(msgs=5, none=2, ticks=4, pause=2, dts="{16, 40}", i1=30, i2=45, rec=2)
+        with ThreadPoolExecutor(max_workers=12) as ex:
             f_mc = {o: ex.submit(mcjob, _cfg(d, f"mc_{o}.cfg", order=o, checks=SAFETY, **bound), 4 if q else 8) for o in ORDERS}
             f_live = {o: ex.submit(mcjob, _cfg(d, f"live_{o}.cfg", spec="FairSpec", order=o, checks=LIVENESS, **lb), 2) for o in ORDERS}
+            f_mcr = {o: ex.submit(mcjob, _cfg(d, f"mcr_{o}.cfg", order=o, checks=SAFETY, **rbound), 4 if q else 8) for o in ORDERS}
+            f_liver = {o: ex.submit(mcjob, _cfg(d, f"liver_{o}.cfg", spec="FairSpec", order=o, checks=LIVENESS, **rlb), 2) for o in ORDERS}
             f_graph = [ex.submit(export_graph, d, f"graph{k}.cfg", random.Random(seed * 31 + k), order=model_order, **pl)
                        for k, pl in enumerate(plans)]
             f_sim = ex.submit(engine.gen_behaviours, "DataLogger",
                               _cfg(d, "sim.cfg", order=model_order, gen="TRUE", checks="INVARIANT GenInv", **sim),
                               num=400 if q else 4000, depth=150, seed=seed + 5, timeout=900)
+            cexs: List[Tuple[str, str, List[dict]]] = []     # (TLC job, violated property, behaviour) for the handshake the code has
             mc: Dict[str, Dict[str, Any]] = {}
+            mcr: Dict[str, Dict[str, Any]] = {}
             live: Dict[str, Any] = {}
+            liver: Dict[str, Any] = {}
             for o in ORDERS:
                 r = f_mc[o].result()
                 mc[o] = {"violation": r["violation"], "states": r.get("distinct", 0), "transitions": r.get("states", 0),
                          "depth": r.get("depth", 0), "complete": r["violation"] is None}
+                r = f_mcr[o].result()
+                mcr[o] = {"violation": r["violation"], "states": r.get("distinct", 0), "transitions": r.get("states", 0),
+                          "depth": r.get("depth", 0), "complete": r["violation"] is None}
                 r = f_live[o].result()
                 live[o] = {"violation": r["violation"], "states": r.get("distinct", 0)}
+                r = f_liver[o].result()
+                liver[o] = {"violation": r["violation"], "states": r.get("distinct", 0)}
+                if o == model_order:
+                    cexs += [(job, f[o].result()["violation"], f[o].result()["cex"]) for job, f in
+                             (("safety", f_mc), ("liveness", f_live), ("safety, restart", f_mcr), ("liveness, restart", f_liver))
+                             if f[o].result()["violation"]]
             graphs = [f.result() for f in f_graph]
             sims = f_sim.result()
         for o in ORDERS:
             if mc[o]["violation"] or live[o]["violation"]:
                 notes.append(f"specification with WriterOrder={o}{' (the order the code has)' if o == order else ''}: TLC finds "
                              f"{mc[o]['violation'] or live[o]['violation']} violated")
+            elif mcr[o]["violation"] or liver[o]["violation"]:
+                what = " and ".join(x for x in (mcr[o]["violation"], liver[o]["violation"]) if x)
+                notes.append(f"specification with WriterOrder={o}{' (the order the code has)' if o == order else ''} and a RESTART "
+                             f"(MaxRec=2): TLC finds {what} violated (no violation with one recording)")
         work: List[Tuple[List[dict], Tuple[int, int], str]] = []
         gstats = []
         plan_behs: List[List[List[dict]]] = []
         for pl, (behs, st) in zip(plans, graphs):
-            st["bound"] = {k2: pl[k2] for k2 in ("msgs", "none", "ticks", "pause", "dts", "i1", "i2")}
+            st["bound"] = {k2: pl.get(k2, 1) for k2 in ("msgs", "none", "ticks", "pause", "rec", "dts", "i1", "i2")}
             gstats.append(st)
             plan_behs.append(behs)
             work += [(b, (pl["i1"], pl["i2"]), "cover") for b in behs]
         work += [(b, (sim["i1"], sim["i2"]), "simulate") for b in sims]
+        # the handshake the code has is UNSAFE in the model: TLC's own counterexamples are executed on the code, once per format pair
+        # (the path cover below contains such paths only where the small graphs reach them)
+        work += [(b, (30, 0), "counterexample") for _, _, b in cexs for _ in FORMAT_PAIRS]
 
         lap("tlc_model_checking_and_generation_s")
         # 3. replay on the real code (spec-driven schedules)
         jobs = []
         for i, (b, iv, src) in enumerate(work):
-            pairs = [FORMAT_PAIRS[(i + j) % len(FORMAT_PAIRS)] for j in range(1 if q else 3)]
+            pairs = [FORMAT_PAIRS[(i + j) % len(FORMAT_PAIRS)] for j in range(1 if q or src == "counterexample" else 3)]
             for j, fm in enumerate(pairs):
                 st = sorted(rng.sample(range(len(b)), min(3, len(b)))) if (i + j) % 3 == 0 else None
                 jobs.append((0, b, {"fmts": list(fm), "intervals": list(iv), "typemap": "sig" if (i + j) % 4 == 3 else "std",
-                                    "stutters": st, "source": src}))
+                                    "stutters": st, "source": src, "naming": NAMINGS[1 if (i + j) % 5 == 4 else 0]}))
         results = _pool_map(_run, jobs)
         for r, (_, b, var) in zip(results, jobs):
             r["behaviour"], r["variant"] = b, var
@@ -382,18 +505,29 @@ def run(tier: str, seed: int) -> Dict[str, Any]:
         scripts = _scripts(plan_behs[0])
         cap = 1500 if q else 40000
         ejobs = [(sc, {"fmts": list(FORMAT_PAIRS[i % 4]), "intervals": [plans[0]["i1"], plans[0]["i2"]], "typemap": "std" if i % 3 else "sig",
-                       "stutters": None, "source": "explore"}, cap) for i, sc in enumerate(scripts)]
+                       "stutters": None, "source": "explore", "naming": "file"}, cap) for i, sc in enumerate(scripts)]
+        # ... and recorder scripts WITH A RESTART (two starts), taken from the restart graph: a seeded sample, the scripts in
+        # which the second recording reaches a flush first (those are the ones in which left-overs of the first can surface)
+        rscripts = [sc for sc in _scripts(plan_behs[rplan]) if sum(1 for x in sc if x["a"] == "Start") == 2]
+        rng.shuffle(rscripts)
+        rscripts.sort(key=lambda sc: not _second_flushes(sc))
+        rscripts = rscripts[:RESTART_SCRIPTS[0 if q else 1]]
+        scripts += rscripts
+        ejobs += [(sc, {"fmts": list(FORMAT_PAIRS[i % len(FORMAT_PAIRS)]), "intervals": [plans[rplan]["i1"], plans[rplan]["i2"]],
+                        "typemap": "std" if i % 3 else "sig", "stutters": None, "source": "explore-restart", "naming": NAMINGS[i % 2]},
+                   RESTART_CAP[0 if q else 1]) for i, sc in enumerate(rscripts)]
         if not q:   # deeper: a sample of the recorder scripts of the largest graph, interleavings enumerated up to a cap
-            deep = _scripts(plan_behs[-1])
+            deep = _scripts(plan_behs[rplan - 1])
             rng.shuffle(deep)
-            ejobs += [(sc, {"fmts": list(FORMAT_PAIRS[i % 4]), "intervals": [plans[-1]["i1"], plans[-1]["i2"]], "typemap": "std",
-                            "stutters": None, "source": "explore-deep"}, 2000) for i, sc in enumerate(deep[:40])]
+            ejobs += [(sc, {"fmts": list(FORMAT_PAIRS[i % 4]), "intervals": [plans[rplan - 1]["i1"], plans[rplan - 1]["i2"]], "typemap": "std",
+                            "stutters": None, "source": "explore-deep", "naming": "file"}, 2000) for i, sc in enumerate(deep[:40])]
         # the root schedule of every script is run here; each alternative it leaves open is a disjoint subtree = one pool job
         from .. import logger_drv as L
         sub, roots = [], []
         with engine.Quiet():
             for sc, var, cp in ejobs:
-                res, alts = L.run_schedule(sc, [], fmts=tuple(var["fmts"]), intervals=tuple(var["intervals"]), typemap=var["typemap"])
+                res, alts = L.run_schedule(sc, [], fmts=tuple(var["fmts"]), intervals=tuple(var["intervals"]), typemap=var["typemap"],
+                                           naming=var["naming"])
                 res["judge"] = L.judge(res)
                 res["behaviour"], res["variant"] = res["steps"], var
                 roots.append(res)
@@ -403,7 +537,7 @@ def run(tier: str, seed: int) -> Dict[str, Any]:
         explored = _pool_map(_explore, sub, chunksize=1)
         truncated_scripts = set()
         for ex, (sc, var, _, _) in zip(explored, sub):
-            if ex["truncated"] and var["source"] == "explore":
+            if ex["truncated"] and var["source"] in ("explore", "explore-restart"):
                 truncated_scripts.add(json.dumps(sc, sort_keys=True))
             for r in ex["runs"]:
                 r["behaviour"], r["variant"] = r["steps"], var
@@ -414,7 +548,8 @@ def run(tier: str, seed: int) -> Dict[str, Any]:
         for i, sc in enumerate(fscripts):
             for k in range(2 if q else 4):
                 fjobs.append((sc, {"fmts": list(FORMAT_PAIRS[(i + k) % len(FORMAT_PAIRS)]), "intervals": [sim["i1"], sim["i2"]],
-                                   "typemap": "sig" if (i + k) % 4 == 3 else "std", "stutters": None, "source": "fuzz"},
+                                   "typemap": "sig" if (i + k) % 4 == 3 else "std", "stutters": None, "source": "fuzz",
+                                   "naming": NAMINGS[(i + k) % 2]},
                               seed * 100003 + i * 17 + k))
         fuzzed = _pool_map(_fuzz, fjobs)
         for r, (sc, var, _) in zip(fuzzed, fjobs):
@@ -423,7 +558,8 @@ def run(tier: str, seed: int) -> Dict[str, Any]:
         for i, r in enumerate(results):
             r["tid"] = i + 1
         if truncated:
-            notes.append(f"exhaustive interleaving enumeration truncated at {cap} runs for {truncated} of {len(scripts)} recorder scripts")
+            notes.append(f"exhaustive interleaving enumeration truncated (cap {cap} runs per script, {RESTART_CAP[0 if q else 1]} per subtree of a "
+                         f"restart script) for {truncated} of {len(scripts)} recorder scripts")
         orders = sorted({r["order"] for r in results if r["order"] != "unknown"})
         if orders and orders != [order]:
             raise tlc.TlcError(f"writer order differs between runs: {orders} vs probe {order}")
@@ -435,6 +571,19 @@ def run(tier: str, seed: int) -> Dict[str, Any]:
     finally:
         shutil.rmtree(d, ignore_errors=True)
     viol, drift = _assess(results, verdicts)
+    if cexs:
+        notes.append(f"the handshake the code has ({order}) is UNSAFE in the model: TLC violates " +
+                     ", ".join(f"{p} ({job})" for job, p, _ in cexs) + "; the counterexamples were executed on the code")
+        if not viol:
+            # never let an unsafe handshake pass because the executions happened not to show it: TLC's verdict on the model of the
+            # handshake the code was observed to have is reported (the replay file holds the counterexample schedule)
+            for job, p, b in cexs:
+                sig = f"C17/{TLC_CLAUSE.get(p, p)}/unsafe-handshake:{order}"
+                if sig not in {v["signature"] for v in viol}:
+                    viol.append({"signature": sig, "replay": {"behaviour": b, "variant": {"fmts": list(FORMAT_PAIRS[0]), "intervals": [30, 0],
+                                 "typemap": "std", "stutters": None, "source": "counterexample", "naming": "file"},
+                                 "clause": "C17." + TLC_CLAUSE.get(p, p), "tlc_property": p, "tlc_job": job, "writer_order": order,
+                                 "note": "model-level verdict: no execution of this run showed a failing clause"}})
     if drift:
         notes.append(f"{len(drift)} run(s) the model could not follow although no C17 clause failed (drift), e.g. tid {drift[:5]}")
     by_src: Dict[str, int] = defaultdict(int)
@@ -445,40 +594,52 @@ def run(tier: str, seed: int) -> Dict[str, Any]:
             by_fmt[f] += 1
     m = mc[model_order]
     sample_run = results[0]
-    cov = {"states": m["states"] if m["complete"] else mc[ORDERS[1 - ORDERS.index(model_order)]]["states"],
-           "transitions": m["transitions"] if m["complete"] else mc[ORDERS[1 - ORDERS.index(model_order)]]["transitions"],
+    mfull = m if m["complete"] else next((mc[o] for o in reversed(ORDERS) if mc[o]["complete"]), m)
+    cov = {"states": mfull["states"], "transitions": mfull["transitions"],
            "traces_validated_against_impl": len(results),
-           "writer_order_observed_on_code": order, "model_check_by_writer_order": mc, "liveness_by_writer_order": live,
+           "writer_order_observed_on_code": order, "handshake_safe_in_model": not cexs,
+           "tlc_counterexamples_executed_on_code": len(cexs), "elapsed_time_carried_over_restart_on_code": carried, "model_check_by_writer_order": mc, "liveness_by_writer_order": live,
+           "model_check_restart_by_writer_order": mcr, "liveness_restart_by_writer_order": liver, "restart_bound": rbound,
+           "runs_with_restart": sum(1 for r in results if len(r["files"]) > 1),
+           "runs_with_flush_in_second_recording": sum(1 for r in results if any(e["th"] == "W" and e["op"] == "wait" and e["res"] and e["rec"] > 1
+                                                                                for e in r["ev"])),
+           "runs_with_update_between_recordings": sum(1 for r in results if _between(r["ev"])),
+           "restart_scripts_explored": len(rscripts),
            "state_graphs_covered": gstats, "runs_by_source": dict(by_src), "runs_by_formatter": dict(by_fmt),
            "scripts_explored_exhaustively": len(scripts) - truncated, "scripts_explored_truncated": truncated, "scripts_fuzzed": len(fscripts),
-           "runs_with_subdivision": sum(1 for r in results if any(len(f) > 1 for f in r["files"].values())),
+           "runs_with_subdivision": sum(1 for r in results if any(len(f) > 1 for rf in r["files"] for f in rf.values())),
            "runs_with_pause": sum(1 for r in results if any(e["a"] == "Pause" for e in r["ev"])),
-           "runs_with_busy_flush": sum(1 for r in results if any(e["th"] == "R" and e["op"] == "is_set" and e["res"] and e["ret"] for e in r["ev"])),
-           "runs_stop_waited": sum(1 for r in results if any(e["th"] == "R" and e["op"] == "wait" for e in r["ev"])),
+           "runs_with_busy_flush": sum(1 for r in results if any(e["th"] == "R" and e["op"] == "is_set" and e["ret"] for e in r["ev"])),
+           "runs_stop_waited": sum(1 for r in results if any(e["th"] == "R" and e["op"] == "wait" and not e["res"] for e in r["ev"])),
            "sync_steps_validated": sum(len(r["ev"]) - 1 for r in results), "drift_runs": len(drift),
            "runs_with_failing_clause": len({r["tid"] for r in results if r["judge"]["clauses"]}),
            "runs_by_violation_signature": {x["signature"]: x["replay"]["runs_with_this_signature"] for x in viol},
            "samples": [{"behaviour": sample_run["behaviour"], "variant": sample_run["variant"], "files": sample_run["files"]},
                        {"trace_events": sample_run["ev"][-4:]}],
            "phase_wall_s": phases, "exhaustive": False,
-           "explanation": "DataLogger.tla model checked for both writer statement orders (states/transitions = the complete run: of the "
-                          "order the code has if it is safe, otherwise of the other order; see model_check_by_writer_order). Executed on the "
+           "explanation": "DataLogger.tla model checked for the three handshakes (states/transitions = the complete run: of the "
+                          "handshake the code has if it is safe, otherwise of a safe one; see model_check_by_writer_order). Executed on the "
                           "real DataCollection with BatonEvent/BatonThread/virtual clock: (cover) a path cover of every transition of the "
                           "complete state graphs of the small bounds, (simulate) TLC -simulate behaviours of a larger bound, (explore) EVERY "
                           "interleaving of recorder and writer for each recorder script of the smallest graph, enumerated on the code itself, "
-                          "(fuzz) random interleavings of the simulated scripts. Files read back per formatter with the package's readers; "
+                          "(fuzz) random interleavings of the simulated scripts. RESTART: model checked with MaxRec=2 on restart_bound "
+                          "(model_check_restart_by_writer_order), the restart graph is one of the covered graphs, restart scripts are "
+                          "enumerated on the code (explore-restart), the simulated bound allows two recordings. Files of each recording read "
+                          "back separately per formatter with the package's readers and judged against the arrivals of that recording; "
                           "each run's synchronisation trace and files validated by TLC (DataLogger_Trace)"}
     return {"level": "model_checking", "coverage": cov, "violations": viol, "notes": notes,
-            "assumptions": ["interleaving granularity = synchronisation operations (Event.set/clear/is_set/wait, Thread.join); code between "
-                            "two operations of a thread is atomic", "a wait(timeout) that is scheduled while its event is down returns False; "
-                            "timeouts do not advance the virtual clock", "one recording session per collection (start .. stop, close); "
-                            "messages handed over while paused are not required in the files (and reported as drift if present)",
+            "assumptions": ["interleaving granularity = synchronisation operations (Event.set/clear/is_set/wait, Thread.join) plus one "
+                            "scheduling point before every DataSet.write() of the writer; code between two such points of a thread is atomic", "a wait(timeout) that is scheduled while its event is down returns False; "
+                            "timeouts do not advance the virtual clock", "at most two recordings per collection (start .. stop, start .. stop, close), the "
+                            "metadata key the names depend on is changed before every start; messages handed over while paused or between "
+                            "two recordings are not required in the files (and reported as drift if present)",
                             "d1 selects one message type, d2 selects ALL_MESSAGE_TYPES; core message definitions with 0/4/24/32 payload bytes",
                             "msg_header (.csv) files are read back with a line parser (the package has no reader for them)"]}
 
 
 def replay(path: str) -> Dict[str, Any]:
     rp = json.load(open(path))
+    EACC_RESET[0] = "FALSE" if _pool_map(_probe, [None])[0][1] else "TRUE"
     res = _pool_map(_run, [(1, rp["behaviour"], rp["variant"])])[0]
     res["behaviour"], res["variant"] = rp["behaviour"], rp["variant"]
     d = tempfile.mkdtemp(prefix="c17_")
